@@ -1,91 +1,89 @@
 """C10 — rescaling the likelihood shifts log-evidence only."""
 import contextlib
 import io
+import time
 import warnings
 
 import numpy as np
 
-from . import common, pipeline
+from . import common, pipeline, c10cl
 from .common import Corr, hex2f
 from .c01 import make_target
 
 ID = "C10"
-LEAN_MODULES = ["TempestVerif.Props.C10"]
-RULE = ("(a) paired real runs under one seed with logL and logL + c (c in {+-1, +-37.5, +-1000}, dyadic) over kernel x resampler x "
-        "clustering x metric mode: the model's theorem C10_run predicts identical beta / ESS sequences, identical particles and "
-        "normalised weights, and logz_t' = logz_t + beta_t c; compared within 1e-8 relative (a mismatch is re-tested with c/2 and 2c "
-        "to rule out a rounding-induced decision flip). (b) the pipeline model replays the tape of a run with a shifted likelihood "
-        "(|c| up to 1000) and must reproduce it. Non-trivial = every pair (c != 0).")
-MODELLED = ["rounding-induced branch flips are allowed by the statement ('up to floating-point rounding'); a flip is recognised by re-running with c/2 and 2c",
-            "the trainer never reads logL (G5: trainerReads = beta, iter, u), so clustering / Student-t fits see identical inputs"]
-ASSUMPTIONS = ["user likelihood and prior transform are pure"]
+LEAN_MODULES = ["TempestVerif.Props.C10", "TempestVerif.Props.C10Closed", "TempestVerif.Props.C10Round", "TempestVerif.Props.C10Source"]
+RULE = ("(a) paired-shift-runs: paired INSTRUMENTED real runs under one seed with logL and logL + c (c in {+-1, +-37.5, +-1000}) over kernel x "
+        "resampler x clustering x metric mode (+ blobs, + a zero-likelihood half-plane, + a two-mode target on which the clusterer finds "
+        "several modes). The closed-loop theorems (C10_cl_iterate / C10_cl_runLoop / C10_cl_run / C10_cl_posterior) predict, call by call: "
+        "the same random stream consumption, the same trial temperatures with the same ESS / metric, identical arguments of "
+        "volume_variation, trim_weights, Trainer.run, Resampler.run, identical trainer output, proposals, Hastings factors, acceptance "
+        "probabilities, masks, step counts, sigma-derived efficiency, calls, the same number of iterations and guard values, l + c stored, "
+        "logz_t + beta_t c, final + c, and posterior() under all 16 option combinations; compared within 1e-8 relative (a mismatch is "
+        "re-tested with c/2 and 2c to rule out a rounding-induced decision flip). (b) closed-loop-replay: every one of those recorded runs "
+        "(shifted and unshifted) is replayed by the closed-loop Lean model at Float, which must reproduce the whole run from the recorded "
+        "answers of the random / opaque calls: schedule (both metric modes), trimming, indices, masks, NUMBER of accept/reject steps, "
+        "acceptance, efficiency, calls, batches, NUMBER of iterations, final evidence. (c) shifted-trace-replay: the tape-driven pipeline "
+        "model (what Props/C10.lean is about) replays runs with a shifted likelihood. (d) checkpoint-shift: paired runs with save_every; "
+        "every checkpoint file must be the shift of the other. (e) rounding-bounds: the rounded-arithmetic bounds of Props/C10Round.lean "
+        "are evaluated on the recorded acceptance exponents. Non-trivial = every pair (c != 0) / every replayed run with an annealing iteration.")
+MODELLED = ["rounding-induced branch flips are allowed by the statement ('up to floating-point rounding'); a flip is recognised by re-running with c/2 and 2c; "
+            "Props/C10Round.lean bounds how far rounding can move an acceptance exponent and an ESS (standard model of binary64, assumption H_round)",
+            "closed-loop model: the trainer (clustering / Student-t fit), the proposal generator, volume_variation, the prior draw and the random "
+            "stream are arbitrary functions of what the Python passes to them (World); that the real functions read nothing else (in particular "
+            "no log-likelihood) is checked by the paired runs (identical outputs) and, for the trainer, by G5 (trainerReads = beta, iter, u)",
+            "Metropolis uniforms are non-negative (np.random.rand), so a proposal with alpha = 0 is never accepted",
+            "+inf / NaN log-likelihoods are outside the statement (never generated); -inf is `none` in the model"]
+ASSUMPTIONS = ["user likelihood and prior transform are pure",
+               "H_round (only the C10_round_* theorems): binary64 +,-,* and exp are the exact operation followed by a rounding with relative error <= u "
+               "(+ eta absolute) below the overflow threshold"]
 
 
 def translators():
-    from translate import g4_kernel, g5_tables
-    return [g4_kernel.generate(), g5_tables.generate()]
+    from translate import g4_kernel, g5_tables, g9_shift
+    return [g4_kernel.generate(), g5_tables.generate(), g9_shift.generate()]
 
 
 def _quiet():
     return contextlib.redirect_stdout(io.StringIO())
 
 
-def _run(cfg, c, seed, n_total=64):
-    from tempest import Sampler
-    mu = np.array([0.4, -0.7])
+# --------------------------------------------------------------------------------------------------------------- configurations
 
-    def like(x):
-        return -0.5 * float(np.sum((x - mu) ** 2)) / 0.5 + c
-    np.random.seed(seed)
-    with _quiet(), warnings.catch_warnings():
-        warnings.simplefilter("ignore")
-        s = Sampler(lambda u: 8.0 * u - 4.0, like, 2, n_particles=24, clustering=cfg["clustering"], sample=cfg["kernel"],
-                    resample=cfg["resample"], volume_variation=cfg["vv"], n_steps=1, n_max_steps=2)
-        s.run(n_total=n_total, progress=False)
-    st = s.state
-    x, w, l = s.posterior(trim_importance_weights=False)
-    return {"beta": np.asarray(st.get_history("beta"), dtype=float), "ess": np.asarray(st.get_history("ess"), dtype=float),
-            "logz": np.asarray(st.get_history("logz"), dtype=float), "u": st.get_history("u", flat=True), "w": w, "logl": l,
-            "final": float(s.evidence()[0])}
+def _mk(kernel, resample, clustering, vv, **kw):
+    d = dict(kernel=kernel, resample=resample, clustering=clustering, vv=vv)
+    d.update(kw)
+    return d
 
 
-def _run_or_error(cfg, c, seed):
-    try:
-        return _run(cfg, c, seed), None
-    except Exception as e:  # noqa
-        import traceback
-        files = [f.filename.split("/")[-1] for f in traceback.extract_tb(e.__traceback__)]
-        return None, (type(e).__name__, "modes.py" in files or "student.py" in files)
+CONFIGS = [_mk(k, r, cl, vv) for k in ("tpcn", "rwm") for r in ("mult", "syst") for cl in (False, True) for vv in (None, 0.5)]
+# tight volume-variation targets exercise the 'target too ambitious: stay' and the bisection branches of the reweighter
+TIGHT = [_mk("tpcn", "mult", False, 0.05), _mk("rwm", "syst", False, 0.06), _mk("tpcn", "syst", True, 0.1),
+         _mk("rwm", "syst", False, 0.03, max_iter=160)]      # the last one needs ~100 iterations: thorough tier only
+# configurations outside the tape-driven pipeline model: blobs, a zero-likelihood region (warm-up replacement, -inf proposals),
+# a two-mode target with clustering on (several modes: per-mode sigmas, mode_index), all in both metric modes
+EXTRA = [_mk("tpcn", "syst", False, None, hole=True), _mk("rwm", "mult", True, None, hole=True, blobs=True),
+         _mk("tpcn", "mult", True, None, bimodal=True, n=32, n_total=96), _mk("rwm", "syst", True, 0.5, bimodal=True, n=32, n_total=96),
+         _mk("tpcn", "syst", False, 0.2, blobs=True, hole=True), _mk("rwm", "mult", False, 0.1, hole=True)]
+SHIFTS = [1.0, -1.0, 37.5, -37.5, 1000.0, -1000.0]
+
+_TRACES = {}
+
+
+def _trace(cfg, c, seed, posterior=True):
+    key = (common.digest(cfg), float(c), int(seed), bool(posterior))
+    if key not in _TRACES:
+        if len(_TRACES) > 400:
+            _TRACES.clear()
+        # half of the configurations ask for more effective samples than the pool holds when beta reaches 1, so that the
+        # `ess < n_total` clause of _not_termination decides how many further iterations are run
+        _TRACES[key] = c10cl.record_run(cfg, c, seed, n=cfg.get("n", 16),
+                                        n_total=cfg.get("n_total", 96 if cfg["resample"] == "syst" else 48), posterior=posterior,
+                                        max_iter=cfg.get("max_iter", 60))
+    return _TRACES[key]
 
 
 def shift_problem(cfg, c, seed):
-    (a, ea), (b, eb) = _run_or_error(cfg, 0.0, seed), _run_or_error(cfg, c, seed)
-    if ea or eb:
-        # a run that aborts on a degenerate cluster is the recorded finding F24 (C18); for THIS property it only matters that the
-        # shifted run behaves the same way
-        if ea and eb and ea == eb:
-            return None
-        return f"one run of the pair aborted and the other did not: unshifted {ea or 'completed'}, shifted {eb or 'completed'}"
-    if len(a["beta"]) != len(b["beta"]):
-        return f"different number of iterations ({len(a['beta'])} vs {len(b['beta'])})"
-    tol = 1e-8
-    if not np.allclose(a["beta"], b["beta"], rtol=tol, atol=tol):
-        return f"temperature schedules differ: {a['beta'].tolist()} vs {b['beta'].tolist()}"
-    if not np.allclose(a["ess"], b["ess"], rtol=1e-6, atol=1e-6):
-        return "ESS sequences differ"
-    if a["u"].shape != b["u"].shape or not np.allclose(a["u"], b["u"], rtol=tol, atol=tol):
-        return "particles differ"
-    if not np.allclose(a["w"], b["w"], rtol=1e-6, atol=1e-12):
-        return "normalised weights differ"
-    if not np.allclose(b["logl"] - c, a["logl"], rtol=tol, atol=tol * (1 + abs(c))):
-        return "stored log-likelihoods are not shifted by c"
-    want = a["logz"] + a["beta"] * c
-    if not np.allclose(b["logz"], want, rtol=tol, atol=tol * (1 + abs(c))):
-        k = int(np.argmax(np.abs(b["logz"] - want)))
-        return f"recorded logz at iteration {k + 1} (beta={a['beta'][k]:.4f}): {b['logz'][k]!r}, expected logz + beta*c = {want[k]!r}"
-    if abs(b["final"] - (a["final"] + c)) > tol * (1 + abs(c)):
-        return f"final evidence {b['final']!r}, expected {a['final'] + c!r}"
-    return None
+    return c10cl.pair_problem(_trace(cfg, 0.0, seed), _trace(cfg, c, seed), c)
 
 
 def shift_violation(cfg, c, seed):
@@ -99,32 +97,82 @@ def shift_violation(cfg, c, seed):
     return None
 
 
-CONFIGS = [dict(kernel=k, resample=r, clustering=cl, vv=vv) for k in ("tpcn", "rwm") for r in ("mult", "syst")
-           for cl in (False, True) for vv in (None, 0.5)]
-# tight volume-variation targets exercise the 'target too ambitious: stay' and the bisection branches of the reweighter
-TIGHT = [dict(kernel="tpcn", resample="mult", clustering=False, vv=0.05), dict(kernel="rwm", resample="syst", clustering=False, vv=0.03),
-         dict(kernel="tpcn", resample="syst", clustering=True, vv=0.1)]
+def _tags(c, cfg, t):
+    c.count(f"{cfg['kernel']}/{cfg['resample']}/cl={int(cfg['clustering'])}/vv={cfg['vv']}")
+    for k in ("hole", "blobs", "bimodal"):
+        if cfg.get(k):
+            c.count(k)
+    if t.error:
+        c.count("run aborted (both runs of the pair the same way)")
+        return
+    c.count("iterations", len(t.iters))
+    c.count("annealing iterations", len(t.trim))
+    c.count("warm-up draws replaced (-inf)", sum(len(x) for x in t.choices))
+    c.count("accept/reject steps", len(t.props))
+    c.count("proposals with zero likelihood", sum(1 for st_ in t.props for (k, _, b) in st_ if b and t.like[k] == -np.inf))
+    c.count("proposals outside the cube", sum(1 for st_ in t.props for (_, _, b) in st_ if not b))
+    c.count("iterations with more steps than the minimum", sum(1 for i in t.iters if i["beta"] != 0.0 and i["steps"] > 2))
+    c.count("annealing iterations with several modes", sum(1 for r in t.trains if r["K"] > 1))
+    c.count("trimming dropped records", sum(1 for (w, i, _) in t.trim if len(i) < len(w)))
+    c.count("volume_variation calls", len(t.vvtab))
+    c.count("trial temperatures evaluated", sum(len(m) for m in t.metric_calls))
+    if t.iters and abs(t.iters[-1]["beta"] - 1.0) < 1e-4:
+        c.count("runs ending at beta = 1")
+    c.count("iterations run at beta = 1 only because ESS < n_total", max(0, sum(1 for i in t.iters if 1.0 - i["beta"] < 1e-4) - 1))
 
 
 def correspond(tier):
     rng = common.rng_for("C10")
-    c = Corr("paired-shift-runs", "toleranced (1e-8 relative; decision flips re-tested at c/2 and 2c)")
-    cfgs = (CONFIGS + TIGHT) if tier == "thorough" else [CONFIGS[i] for i in (0, 3, 5, 6, 9, 12, 14)] + TIGHT[:2]
-    shifts = [1.0, -1.0, 37.5, -37.5, 1000.0, -1000.0]
+    drv = common.Driver()
+    c = Corr("paired-shift-runs", "toleranced (1e-8 relative; decision flips re-tested at c/2 and 2c); every internal call compared")
+    cl = Corr("closed-loop-replay", "toleranced Float (decisions exact, near-ties counted)")
+    if tier == "thorough":
+        cfgs = CONFIGS + TIGHT + EXTRA
+    else:
+        cfgs = [CONFIGS[i] for i in (0, 3, 6, 9, 12)] + TIGHT[:2] + EXTRA
+    replay = []
     for i, cfg in enumerate(cfgs):
-        for cc in (shifts if tier == "thorough" else [shifts[i % 6], shifts[(i + 3) % 6]]):
-            seed = rng.randrange(2 ** 31)
+        seed = rng.randrange(2 ** 31)      # one unshifted run per configuration, shared by its shifts
+        for cc in (SHIFTS if tier == "thorough" else [SHIFTS[i % 6], SHIFTS[(i + 3) % 6]][: (2 if i % 3 == 0 else 1)]):
             c.case((cfg, cc, seed), True)
-            c.count(f"{cfg['kernel']}/{cfg['resample']}/cl={int(cfg['clustering'])}/vv={cfg['vv']}")
+            a, b = _trace(cfg, 0.0, seed), _trace(cfg, cc, seed)
+            _tags(c, cfg, b)
+            c.count(f"c={cc}")
             v = shift_violation(cfg, cc, seed)
             if v:
-                c.disagree(input={"config": cfg, "c": cc, "seed": seed}, impl=v["what"], model="C10_run: Shift c is preserved by every iteration")
-    c.sample({"config": cfgs[0], "shifts": shifts})
-    # (b) trace replay of shifted runs through the pipeline model
-    drv = common.Driver()
+                c.disagree(input={"config": cfg, "c": cc, "seed": seed}, impl=v["what"],
+                           model="C10_cl_run: the run on l + c is the shift of the run on l")
+            elif c10cl.pair_problem(a, b, cc) is not None:
+                c.near_ties += 1
+            for t, sh in ((a, 0.0), (b, cc)):
+                if t.error is None:
+                    replay.append((t, {"config": cfg, "c": sh, "seed": seed}))
+    c.sample({"config": cfgs[0], "shifts": SHIFTS})
+    # (b) closed-loop model replay of every recorded run
+    seen = set()
+    lines, items = [], []
+    for t, info in replay:
+        if id(t) in seen:
+            continue
+        seen.add(id(t))
+        lines.append(c10cl.model_line(t))
+        items.append((t, info))
+    for (t, info), ans in zip(items, drv.batch(lines)):
+        cl.case((info["config"], info["c"], info["seed"]), len(t.trim) > 0)
+        cl.count(f"cl={int(info['config']['clustering'])}/vv={'on' if info['config']['vv'] is not None else 'off'}")
+        cl.count("shifted run" if info["c"] != 0.0 else "unshifted run")
+        prob, tie = c10cl.compare_model(t, ans)
+        for br in c10cl.model_branches(ans):
+            cl.count("branch:" + br)
+        if tie:
+            cl.near_ties += 1
+        elif prob:
+            cl.disagree(input=info, impl=prob, model=ans[:200])
+        cl.sample({"config": info, "beta": [round(i["beta"], 5) for i in t.iters], "steps": [i["steps"] for i in t.iters]})
+    # (c) trace replay of shifted runs through the tape-driven pipeline model
     c2 = Corr("shifted-trace-replay", "toleranced Float")
     recs, lines = [], []
-    for i in range(8 if tier == "quick" else 40):
+    for i in range(4 if tier == "quick" else 40):
         kernel, resample = [("tpcn", "mult"), ("rwm", "syst"), ("tpcn", "syst"), ("rwm", "mult")][i % 4]
         cc = [37.5, -1000.0, 1000.0, -1.0][i % 4]
         prior, like0 = make_target(rng, 2, False)
@@ -148,19 +196,129 @@ def correspond(tier):
         elif prob:
             c2.disagree(input=cfg, impl=prob, model=ans[:200])
         c2.sample({"config": cfg, "logz": [round(it["logz"], 4) for it in rec.impl]})
-    return [c, c2]
+    # (d) checkpoints
+    c3 = Corr("checkpoint-shift", "toleranced (1e-8 relative)")
+    ck = [(_mk("tpcn", "syst", False, None), 37.5), (_mk("rwm", "mult", True, 0.5, blobs=True), -1000.0)]
+    if tier == "thorough":
+        ck += [(cfg, SHIFTS[i % 6]) for i, cfg in enumerate(CONFIGS)]
+    for cfg, cc in ck:
+        seed = rng.randrange(2 ** 31)
+        c3.case((cfg, cc, seed), True)
+        prob, nfiles = c10cl.checkpoint_problem(cfg, cc, seed)
+        c3.count("checkpoint files compared", nfiles)
+        if prob and (c10cl.checkpoint_problem(cfg, cc / 2, seed)[0] or c10cl.checkpoint_problem(cfg, 2 * cc, seed)[0]):
+            c3.disagree(input={"config": cfg, "c": cc, "seed": seed, "checkpoint": True}, impl=prob,
+                        model="C10_cl_checkpoint: the checkpoint of the shifted run is the shifted checkpoint")
+    c3.sample({"configs": [x[0] for x in ck[:2]]})
+    # (e) the rounded-arithmetic bound of Props/C10Round.lean on the recorded acceptance exponents
+    c4 = round_suite(tier, [t for t, _ in items])
+    return [c, cl, c2, c3, c4]
 
+
+# --------------------------------------------------------------------------------------------------------------- rounding
+
+U = 2.0 ** -52
+
+
+def exponent_bound(beta, l, lp, f, c):
+    """C10_round_exponent: |E' - E| <= u (beta (8|lp - l| + 2(|l| + |lp|) + 4|c|) + 8|f|) + 11 eta for the exponents
+    rnd(rnd(beta * rnd(lp - l)) + f) computed from (l, lp) and from (rnd(l + c), rnd(lp + c)); u = 2^-52, eta = 2^-1074"""
+    return U * (beta * (8.0 * abs(lp - l) + 2.0 * (abs(l) + abs(lp)) + 4.0 * abs(c)) + 8.0 * abs(f)) * (1 + 2 ** -40) + 11 * 2.0 ** -1074
+
+
+def round_suite(tier, traces):
+    """every accept/reject step of every recorded pair: the float exponent of the shifted run stays within the proved bound of the
+    float exponent of the unshifted run (both recomputed here with the same IEEE operations as mcmc.py:175)"""
+    c4 = Corr("rounding-bounds", "exact inequality on doubles (the bound is evaluated in extended precision)")
+    from fractions import Fraction as Fr
+    by_seed = {}
+    for t in traces:
+        by_seed.setdefault((common.digest(t.cfg), t.seed), []).append(t)
+    worst = drift = 0.0
+    for group in by_seed.values():
+        base = [t for t in group if t.c == 0.0]
+        for b in group:
+            if b.c == 0.0 or not base:
+                continue
+            a = base[0]
+            if len(a.props) != len(b.props) or len(a.iters) != len(b.iters):
+                continue
+            # current log-likelihoods at each step are not recorded separately: recompute the chain from the committed batches
+            for (pa, pb, ia) in _step_pairs(a, b):
+                beta, l, lp, f, l2, lp2 = ia
+                e1 = np.float64(beta) * (np.float64(lp) - np.float64(l)) + np.float64(f)
+                # the theorem's premise: the shifted run stores fl(l + c), fl(lp + c) for the SAME points (in the real pair the
+                # points themselves drift by rounding after the first step — that drift is reported below, not bounded)
+                e2 = np.float64(beta) * ((np.float64(lp) + np.float64(b.c)) - (np.float64(l) + np.float64(b.c))) + np.float64(f)
+                e3 = np.float64(beta) * (np.float64(lp2) - np.float64(l2)) + np.float64(f)
+                bound = exponent_bound(beta, l, lp, f, b.c)
+                c4.case((beta, l, lp, f, b.c), True)
+                worst = max(worst, abs(float(e2) - float(e1)) / bound if bound > 0 else 0.0)
+                drift = max(drift, abs(float(e3) - float(e1)))
+                if abs(Fr(float(e2)) - Fr(float(e1))) > Fr(bound):
+                    c4.disagree(input={"beta": beta, "l": l, "lp": lp, "factor": f, "c": b.c}, impl=f"exponents {float(e1)!r} / {float(e2)!r}",
+                                model=f"C10_round_exponent bound {bound!r}")
+    c4.count("worst |dE| / bound (x1e6)", int(worst * 1e6))
+    c4.count("largest drift of an exponent between the two REAL runs (x1e15)", int(drift * 1e15))
+    c4.sample({"worst_ratio": worst, "largest_real_drift": drift})
+    return c4
+
+
+def _step_pairs(a, b):
+    """(…, (beta, l, lp, factor, l shifted, lp shifted)) for every walker of every accept/reject step of the pair, with finite lp"""
+    out = []
+    sa = sb = 0
+    for k, ia in enumerate(a.iters):
+        if ia["beta"] == 0.0:
+            continue
+        # walkers' current logl before the first step of this iteration = resampled pool values
+        ann = sum(1 for j in a.iters[:k] if j["beta"] != 0.0)
+        idx = a.idx[ann]
+        pool_a = np.concatenate([j["logl"] for j in a.iters[:k]])
+        pool_b = np.concatenate([j["logl"] for j in b.iters[:k]])
+        la, lb = pool_a[idx].copy(), pool_b[idx].copy()
+        for s_ in range(ia["steps"]):
+            pa, pb = a.props[sa], b.props[sb]
+            mask = a.masks[k][s_]
+            for w, ((ta, fa, ina), (tb, fb, inb)) in enumerate(zip(pa, pb)):
+                lpa, lpb = a.like[ta], b.like[tb]
+                if ina and np.isfinite(lpa) and np.isfinite(lpb):
+                    out.append((pa, pb, (ia["beta"], float(la[w]), float(lpa), float(fa), float(lb[w]), float(lpb))))
+                if mask[w]:
+                    la[w], lb[w] = lpa, lpb
+            sa += 1
+            sb += 1
+    return out
+
+
+# --------------------------------------------------------------------------------------------------------------- search / replay
 
 def search(tier, hints):
     rng = common.rng_for("C10.search")
     found = []
-    for cfg in TIGHT + CONFIGS[:: (2 if tier == "quick" else 1)]:
+    t0 = time.time()
+    # first the inputs on which an obligation broke, then a sweep
+    todo = []
+    for h in hints:
+        i = h.get("input") if isinstance(h.get("input"), dict) else None
+        if i and "config" in i and "seed" in i and i.get("c"):
+            todo.append((i["config"], i["c"], i["seed"], bool(i.get("checkpoint"))))
+    for cfg in TIGHT[:3] + EXTRA + CONFIGS[:: (2 if tier == "quick" else 1)]:
         for cc in (37.5, -1000.0):
-            v = shift_violation(cfg, cc, rng.randrange(2 ** 31))
-            if v:
-                found.append(v)
-                if len(found) >= 3:
-                    return found
+            todo.append((cfg, cc, rng.randrange(2 ** 31), False))
+    for cfg, cc, seed, ck in todo:
+        if ck:
+            p = c10cl.checkpoint_problem(cfg, cc, seed)[0]
+            v = {"what": p, "config": cfg, "c": cc, "seed": seed, "checkpoint": True} if p and (
+                c10cl.checkpoint_problem(cfg, cc / 2, seed)[0] or c10cl.checkpoint_problem(cfg, 2 * cc, seed)[0]) else None
+        else:
+            v = shift_violation(cfg, cc, seed)
+        if v:
+            found.append(v)
+            if len(found) >= 3:
+                return found
+        if time.time() - t0 > (240 if tier == "quick" else 900):
+            break
     return found
 
 
@@ -169,5 +327,8 @@ def replay(obj):
     if "witness" in f.get("replay", {}):
         from . import witnesses
         return witnesses.ALL[f["replay"]["witness"]]()
+    if f.get("checkpoint"):
+        p = c10cl.checkpoint_problem(f["config"], f["c"], f["seed"])[0]
+        return {"fails": p is not None, "detail": p}
     v = shift_violation(f["config"], f["c"], f["seed"])
     return {"fails": v is not None, "detail": v}
